@@ -34,6 +34,8 @@ type Setup struct {
 	Cfg    Config
 	Inputs *Inputs
 	Prog   *core.Program
+	Switch []Config // the configurations of the switch family
+	IJB    core.V   // the alternative injected data
 }
 
 // HistoryReplay is the replay case of a violation found by a history.
@@ -68,6 +70,9 @@ func Run(ctx *core.Ctx) {
 	for i, a := range os.Args {
 		if a == "--c08-struct-first" && i+1 < len(os.Args) {
 			StructFirstChild(os.Args[i+1]) // never returns
+		}
+		if a == "--c08-cfg-first" && i+1 < len(os.Args) {
+			CfgFirstChild(os.Args[i+1]) // never returns
 		}
 	}
 	if ctx.ReplayPath != "" {
@@ -105,6 +110,17 @@ func Run(ctx *core.Ctx) {
 			exports[i] = &exported{s, h}
 		})
 	}
+	// the switch family: configuration changed between operations
+	var swSetup *Setup
+	var swHists [][]Step
+	par(func() {
+		s, h, err := exploreHistories(ctx, "switch", L)
+		if err != nil {
+			ctx.ToolError("%v", err)
+			return
+		}
+		swSetup, swHists = s, h
+	})
 	// the invariants are not vacuous: deviations must break them
 	selftest := map[string]string{}
 	var stmu sync.Mutex
@@ -112,10 +128,11 @@ func Run(ctx *core.Ctx) {
 		{"obligatory_append", "oblig", "Pure", "PROPERTY"},
 		{"obligatory_append", "oblig", "HistoryIndependent", "INVARIANT"},
 		{"render_mutates_data", "none", "Pure", "PROPERTY"},
+		{"config_cached_by_length", "switch", "HistoryIndependent", "INVARIANT"},
 	} {
 		d := d
 		par(func() {
-			cfg := fmt.Sprintf("CONSTANT Dev = {\"%s\"}\nCONSTANT CfgName = \"%s\"\nCONSTANT MaxLen = 2\nINIT Init\nNEXT Next\n%s %s\nCHECK_DEADLOCK FALSE\n", d.dev, d.cfg, d.kind, d.prop)
+			cfg := fmt.Sprintf("CONSTANT Dev = {\"%s\"}\nCONSTANT CfgName = \"%s\"\nCONSTANT MaxLen = %d\nINIT Init\nNEXT Next\n%s %s\nCHECK_DEADLOCK FALSE\n", d.dev, d.cfg, maxLenOf(d.cfg), d.kind, d.prop)
 			res, err := ctx.RunTLC(core.TLCOpts{Module: "SoyBundle", Cfg: cfg, Workers: 1, Timeout: 3 * time.Minute, Label: "deviation:" + d.dev + "/" + d.prop})
 			if err != nil {
 				ctx.ToolError("deviation run %s: %v", d.dev, err)
@@ -125,10 +142,10 @@ func Run(ctx *core.Ctx) {
 			defer stmu.Unlock()
 			if res.Violated != d.prop {
 				selftest[d.dev+"/"+d.prop] = "NOT violated"
-				ctx.ToolError("deviation %s does not violate %s within 2 steps (violated=%q): the property is vacuous", d.dev, d.prop, res.Violated)
+				ctx.ToolError("deviation %s does not violate %s within the step bound (violated=%q): the property is vacuous", d.dev, d.prop, res.Violated)
 				return
 			}
-			selftest[d.dev+"/"+d.prop] = "violated within 2 steps, as required"
+			selftest[d.dev+"/"+d.prop] = fmt.Sprintf("violated within %d steps, as required", maxLenOf(d.cfg))
 		})
 	}
 	// the functional form of SoyExec used by the model is SoyExec
@@ -147,6 +164,9 @@ func Run(ctx *core.Ctx) {
 		total += n
 		nontrivial += nt
 	}
+	if swSetup != nil {
+		SwitchHistories(ctx, swSetup, swHists)
+	}
 	ctx.Extra["m2_replay_wall_s"] = time.Since(t0).Seconds()
 	ctx.Extra["m2_histories_replayed"] = total
 	ctx.Extra["m2_history_length"] = L
@@ -159,6 +179,13 @@ func Run(ctx *core.Ctx) {
 	extra := StructHistories(ctx, ctx.Pick(3, 4))
 	RandomHistories(ctx, ctx.Pick(240, 2400), extra)
 	ctx.Extra["m3_wall_s"] = time.Since(t1).Seconds()
+}
+
+func maxLenOf(cfg string) int {
+	if cfg == "switch" {
+		return 3 // [E] render, [S], render
+	}
+	return 2
 }
 
 // exploreHistories runs TLC on the reference model for one configuration and
@@ -194,9 +221,12 @@ func exploreHistories(ctx *core.Ctx, cfgName string, L int) (*Setup, [][]Step, e
 	if setup == nil {
 		return nil, nil, fmt.Errorf("TLC printed no setup for configuration %s", cfgName)
 	}
-	want := 1
+	want, nops := 1, 12
+	if cfgName == "switch" {
+		nops = len(setup.Switch) + 3
+	}
 	for i := 0; i < L; i++ {
-		want *= 12
+		want *= nops
 	}
 	if len(hists) != want {
 		return nil, nil, fmt.Errorf("TLC exported %d histories for %s, expected %d", len(hists), cfgName, want)
@@ -245,6 +275,15 @@ func DecodeSetup(js string) (*Setup, error) {
 			IJ     core.V                       `json:"ij"`
 			Expr   core.E                       `json:"expr"`
 			Files  []string                     `json:"files"`
+			IJB    core.V                       `json:"ijb"`
+			Switch []struct {
+				Name  string          `json:"name"`
+				Oblig []string        `json:"oblig"`
+				Sfx   json.RawMessage `json:"sfx"`
+				Fns   json.RawMessage `json:"fns"`
+				IJ    string          `json:"ij"`
+				Msgs  bool            `json:"msgs"`
+			} `json:"switch"`
 		} `json:"setup"`
 	}
 	if err := json.Unmarshal([]byte(js), &raw); err != nil {
@@ -274,7 +313,34 @@ func DecodeSetup(js string) (*Setup, error) {
 		return nil, fmt.Errorf("files of the model %v are not the unparsed files %v", want, names)
 	}
 	in := &Inputs{Files: files, Data: s.Data, IJ: s.IJ, ExprSrc: core.Unparse(s.Expr, core.Style{})}
-	return &Setup{Cfg: cfg, Inputs: in, Prog: prog}, nil
+	st := &Setup{Cfg: cfg, Inputs: in, Prog: prog, IJB: s.IJB}
+	objOf := func(raw json.RawMessage) (map[string]string, error) { // an empty function is printed as []
+		m := map[string]string{}
+		if len(raw) > 0 && raw[0] == '{' {
+			if err := json.Unmarshal(raw, &m); err != nil {
+				return nil, err
+			}
+		}
+		return m, nil
+	}
+	for _, sc := range s.Switch {
+		c := Config{Name: sc.Name, Oblig: sc.Oblig, NoMsgs: !sc.Msgs}
+		if c.Oblig == nil {
+			c.Oblig = []string{}
+		}
+		if sc.IJ == "b" {
+			c.IJ = "b"
+		}
+		var err error
+		if c.Sfx, err = objOf(sc.Sfx); err != nil {
+			return nil, err
+		}
+		if c.Fns, err = objOf(sc.Fns); err != nil {
+			return nil, err
+		}
+		st.Switch = append(st.Switch, c)
+	}
+	return st, nil
 }
 
 // judge compares one observed step with the model's expectation (exp may be
@@ -305,6 +371,9 @@ func judge(o Op, obs Obs, exp *Step, fresh *Obs) string {
 		}
 		if obs.Out != fresh.Out {
 			return fmt.Sprintf("on a fresh bundle the operation writes %q, here %q", trunc(fresh.Out, 300), trunc(obs.Out, 300))
+		}
+		if obs.Log != fresh.Log {
+			return fmt.Sprintf("on a fresh bundle the operation logs %q, here %q", trunc(fresh.Log, 300), trunc(obs.Log, 300))
 		}
 	}
 	return ""
@@ -531,6 +600,39 @@ func replayFile(ctx *core.Ctx) {
 		return
 	}
 	r := v.Replay
+	if r.Kind == "switch-history" {
+		var sr struct {
+			Replay SwitchReplay `json:"replay"`
+		}
+		if err := json.Unmarshal(b, &sr); err != nil || len(sr.Replay.Switch) < 2 {
+			ctx.ToolError("replay: not a switch history: %v", err)
+			return
+		}
+		setup := &Setup{Cfg: r.Cfg, Inputs: r.Inputs, Switch: sr.Replay.Switch, IJB: sr.Replay.IJB}
+		var ops []Op
+		for _, s := range r.History {
+			if s.Op.Op != "setcfg" {
+				ops = append(ops, s.Op)
+			}
+		}
+		fresh, err := freshProcessOutcomes(ctx, setup, ops)
+		if err != nil {
+			ctx.ToolError("replay: %v", err)
+			return
+		}
+		ctx.Rule = "replay of one saved switch history"
+		ctx.AddEvals(int64(len(r.History)))
+		ctx.AddTraces(1)
+		ctx.Distinct(histKey(r.History))
+		ctx.Sample(r.History)
+		if f := runSwitchHistory(setup, r.Cfg, r.History, fresh); f != nil {
+			sr.Replay.FailedAt, sr.Replay.What, sr.Replay.Observed, sr.Replay.Fresh = f.step+1, f.what, f.obs, f.fresh
+			ctx.Violation(f.sig, f.what, sr.Replay)
+		} else {
+			fmt.Println("replay: the history passes")
+		}
+		return
+	}
 	if r.Kind == "struct-history" {
 		var names []string
 		for _, s := range r.History {
